@@ -3,6 +3,7 @@ import concurrent.futures, json, os, random, traceback
 
 from vlib import common as C
 from vlib import e2e, wf
+from vlib.props import c05_squash
 
 PROP = "C05"
 THEOREMS = [
@@ -24,6 +25,16 @@ THEOREMS = [
     "GitAi.NotesTree.wf_ranges_from_line_function",
     "GitAi.NotesTree.postcommit_file_wf",
     "GitAi.NotesTree.merge_ranges_sorted_disjoint",
+    "GitAi.NotesTree.merge_ranges_lists_only_input_lines",
+    "GitAi.NotesTree.build_file_attestation_wf",
+    "GitAi.NotesTree.witness_build_file_attestation_trusts_line_numbers",
+    "GitAi.SquashNote.squash_args_name_merge_commit",
+    "GitAi.SquashNote.squash_note_wf",
+    "GitAi.SquashNote.squash_note_wf_extracted",
+    "GitAi.SquashNote.witness_squash_final_state_at_source_head",
+    "GitAi.SquashNote.witness_squash_source_head_names_absent_file",
+    "GitAi.SquashNote.witness_squash_base_or_target_elsewhere",
+    "GitAi.SquashNote.witness_squash_author_without_prompt",
     "GitAi.NotesTree.upsert_absent_file_removed",
     "GitAi.NotesTree.upsert_keeps_other_files",
     "GitAi.NotesTree.serialize_wf_grammar",
@@ -47,6 +58,7 @@ class Ctx:
         self.stats = {}
         self.wfreqs = []          # (driver request, python verdict)
         self.batchreqs = []       # (driver request, expected tree)
+        self.squashreqs = []      # (driver request `squash_note`, what the binary wrote)
         self.skip = set()
         self.repos = []
         self.special_attested = set()
@@ -656,13 +668,14 @@ SCENARIOS = {
     "rebase-later-file": sc_rebase_later_file,
     "delete-recreate-in-range": sc_delete_recreate_in_range,
     "squash-authorship": sc_squash_authorship,
+    "outside-writer": c05_squash.scenario,
     "large-600": lambda cx: sc_large(cx, 600),
     "newline-name": sc_newline_name,
 }
 
 
 def run_scenario(name, seed):
-    out = {"name": name, "seed": seed, "fails": [], "tags": [], "stats": {}, "wfreqs": [], "batchreqs": [], "error": None, "ops": 0, "ncmd": 0}
+    out = {"name": name, "seed": seed, "fails": [], "tags": [], "stats": {}, "wfreqs": [], "batchreqs": [], "squashreqs": [], "error": None, "ops": 0, "ncmd": 0}
     fn = SCENARIOS.get(name.split("#")[0])
     try:
         with e2e.Env() as env:
@@ -679,7 +692,7 @@ def run_scenario(name, seed):
             except Exception:
                 pass
             cx.tags += ["attested-name:" + repr(f) for f in sorted(cx.special_attested)]
-            out.update(fails=cx.fails, tags=cx.tags, stats=cx.stats, wfreqs=cx.wfreqs, batchreqs=cx.batchreqs, ops=cx.ops, ncmd=env.ncmd)
+            out.update(fails=cx.fails, tags=cx.tags, stats=cx.stats, wfreqs=cx.wfreqs, batchreqs=cx.batchreqs, squashreqs=cx.squashreqs, ops=cx.ops, ncmd=env.ncmd)
     except Exception:
         out["error"] = traceback.format_exc()[-1500:]
     return out
@@ -689,7 +702,7 @@ def plan(tier, seed):
     reps = 2 if tier == "quick" else 20
     jobs = []
     for name in SCENARIOS:
-        k = 1 if name in ("newline-name", "large-600") else (max(reps, 4) if name in ("delete-rename", "squash-authorship") else (max(reps, 3) if name == "delete-recreate-in-range" else reps))
+        k = 1 if name in ("newline-name", "large-600") else 24 * (1 if tier == "quick" else 5) if name == "outside-writer" else (max(reps, 4) if name in ("delete-rename", "squash-authorship") else (max(reps, 3) if name == "delete-recreate-in-range" else reps))
         for i in range(k):
             jobs.append((f"{name}#{i}", seed * 1000 + i))
     if tier == "thorough":
@@ -702,7 +715,7 @@ def phase_e2e(res, tier, seed, jobs=None, name="e2e:WF of every note after every
     with concurrent.futures.ThreadPoolExecutor(16) as ex:
         results = list(ex.map(lambda j: run_scenario(*j), jobs))
     errors = [r for r in results if r["error"]]
-    wfreqs, batchreqs = [], []
+    wfreqs, batchreqs, squashreqs = [], [], []
     totals = {"ops": 0, "git_commands": 0, "notes_seen": 0, "note_verdicts": 0, "max_fanout_depth": 0, "not_a_commit": 0, "notes_with_attestations": 0, "attested_files": 0}
     for r in results:
         res.count_case(f"{r['name']}:{r['seed']}")
@@ -719,6 +732,7 @@ def phase_e2e(res, tier, seed, jobs=None, name="e2e:WF of every note after every
             res.oracle_failure(sig, w, what=f"C05 end-to-end oracle: {sig}")
         wfreqs += r["wfreqs"]
         batchreqs += r["batchreqs"]
+        squashreqs += [(q, o, r["name"], r["seed"]) for q, o in r["squashreqs"]]
     # every (operation, repository) state checked is an evaluation; every note verdict a distinct one
     res.evaluations += totals["ops"]
     res.extra.setdefault("e2e", {}).update(totals)
@@ -750,8 +764,47 @@ def phase_e2e(res, tier, seed, jobs=None, name="e2e:WF of every note after every
     res.obligation("correspondence:e2e notes_add_batch model = observed notes tree", not bad2, "correspondence")
     if bad2:
         res.broken_tie("correspondence:e2e notes_add_batch model = observed notes tree", {"disagreements": len(bad2), "of": len(batchreqs), "first": bad2[0]})
-    res.extra["e2e"].update({"lean_wf_compared": len(wfreqs), "batch_model_compared": len(batchreqs), "scenarios": len(results)})
-    return bool(errors or bad or bad2)
+    # model of rewrite_authorship_after_squash_or_rebase (Model/SquashNote.lean, call-site arguments as extracted
+    # from the current source) vs the note the binary wrote, on the outside-writer scenarios
+    bad3 = []
+    if squashreqs:
+        resp = C.run_driver([q for q, _, _, _ in squashreqs])
+        for (q, obs, nm, sd), m in zip(squashreqs, resp):
+            if not C.subset_eq(obs, m):
+                bad3.append({"scenario": nm, "seed": sd, "observed": C.trunc(obs, 900), "model": C.trunc(m, 900), "req": C.trunc(q, 2500)})
+            res.tag([f"e2e:squash-model:prompts_ok={m.get('prompts_ok')}", f"e2e:squash-model:written={m.get('written')}",
+                     f"e2e:squash-model:attested-entries={min(len(m.get('attested') or []), 3)}"])
+    res.obligation("correspondence:e2e squash/CI note model (Model/SquashNote.lean) = note the binary wrote", not bad3, "correspondence")
+    if bad3:
+        res.broken_tie("correspondence:e2e squash/CI note model = note the binary wrote", {"disagreements": len(bad3), "of": len(squashreqs), "first": bad3[0]})
+    res.extra["e2e"].update({"lean_wf_compared": len(wfreqs), "batch_model_compared": len(batchreqs), "squash_model_compared": len(squashreqs),
+                             "scenarios": len(results)})
+    return bool(errors or bad or bad2 or bad3)
+
+
+def replay_cli(path, spec):
+    """./check C05 --replay <file>: an end-to-end failing input is re-executed exactly (scenario name + scenario seed
+    recorded in the witness); anything else re-runs the recorded tier at the recorded seed."""
+    import re
+    w = spec.get("witness") if isinstance(spec.get("witness"), dict) else {}
+    if spec.get("kind") == "failing-input" and isinstance(w.get("scenario"), str) and isinstance(w.get("seed"), int) \
+            and w["scenario"].split("#")[0] in SCENARIOS:
+        ok, out = C.build_git_ai()
+        if not ok:
+            C.log("git-ai build failed"); return 1
+        r = run_scenario(w["scenario"], w["seed"])
+        live = [(sig, d) for sig, d in r["fails"] if not C.finding_for(PROP, sig)]
+        for sig, d in live[:5]:
+            C.log(f"REPRODUCED {sig}: {json.dumps(d, ensure_ascii=False)[:900]}")
+        if r["error"]:
+            C.log(r["error"])
+        if live:
+            C.log(f"VIOLATION property={PROP} replay={path}")
+            return 1
+        C.log(f"[{PROP}] replay of {w['scenario']} seed {w['seed']}: no oracle failed ({r['ops']} operations checked)")
+        return 0
+    m = re.search(r"-(\d+)-(quick|thorough)\.json$", path)
+    return run(spec.get("tier") or (m.group(2) if m else "quick"), int(spec.get("seed") or (m.group(1) if m else 1)))
 
 
 def run(tier, seed):
@@ -760,16 +813,32 @@ def run(tier, seed):
                 "upsert_file_attestation on generated inputs; (b) the real notes_add / notes_add_batch / note_blob_oids_for_commits on a scratch "
                 "git repository whose notes tree is pre-seeded at mixed fan-out depths 0..19, one case per operation, the model run on the "
                 "observed tree; end-to-end: histories built with the real binary (commit, amend, rebase fast/slow, cherry-pick, merge --squash, "
-                "reset+recommit, delete/rename, notes trees at depth 0/1/2/mixed, git's own re-fan-out, large refs), the WF oracle run on the "
+                "reset+recommit, delete/rename, notes trees at depth 0/1/2/mixed, git's own re-fan-out, large refs; notes written outside the wrapper: "
+                "squash-authorship / ci local merge (squash, single-commit rebase, multi-commit rebase) x target branch {deleted lines above, inserted above, "
+                "deleted the file, renamed the file, edited the AI lines, left the file alone}), the WF oracle run on the "
                 "whole repository after every operation; evaluations = in-process cases + end-to-end operations checked; distinct = distinct "
                 "request JSON / scenario instances")
     res.trusted = ["Lean 4.33 kernel (axioms: propext, Quot.sound, Classical.choice only)",
                    "harness/src/suites/c05.rs generators and canonicalisation; vlib/wf.py + e2e.parse_note (independent Python WF oracle)",
+                   "extract/squash_args.py (textual extraction of which commit five call sites of the squash/CI note writer name)",
+                   "vlib/props/c05_squash.py (line-id abstraction of file contents; VirtualAttributions recomputed from plain git blame + parsed notes)",
                    "real git 2.39 as the reference for notes-tree semantics (kernel model validated by correspondence, not proved)"]
     res.assumptions = ["object names are lower-case hex of one length per repository",
                        "git's notes writer may place every note at any fan-out depth (model: arbitrary layout function); fast-import D/M semantics as modelled",
                        "metadata JSON opaque (serde trusted); prompt keys / base_commit_sha supplied to WF as values",
+                       "squash/CI note model: content-identity level (a line is its id, a faithful diff keeps a line's author iff its id survives — the tracker's line-level behaviour, C16); "
+                       "git's merge result, diff_changed_files and blame are inputs; every non-human author a VirtualAttributions names has a prompt record in it (PromptsOK)",
                        "u32 as Nat with explicit <= u32::MAX guards; debug-build overflow semantics for compress_lines"]
+    # which commit the call sites of rewrite_authorship_after_squash_or_rebase name, re-read from the current source
+    try:
+        import importlib.util
+        spec = importlib.util.spec_from_file_location("extract_squash_args", os.path.join(C.VERIF, "extract", "squash_args.py"))
+        X = importlib.util.module_from_spec(spec); spec.loader.exec_module(X)
+        res.extra["extraction"] = X.main()
+        res.obligation("extract call-site arguments of rewrite_authorship_after_squash_or_rebase", True, "extraction")
+    except Exception as ex:
+        res.obligation("extract call-site arguments of rewrite_authorship_after_squash_or_rebase", False, "extraction")
+        res.broken_tie("extract:squash_args", repr(ex))
     C.phase_proofs(res, PROP, THEOREMS)
     ok, out = C.build_harness()
     if not ok:
